@@ -67,6 +67,9 @@ func tid(t types.Type) string {
 	case *types.Basic:
 		d["kind"] = "basic"
 		d["basic"] = u.Name()
+		if u.Kind() == types.UnsafePointer {
+			d["basic"] = "unsafe.Pointer"
+		}
 		info := u.Info()
 		d["signed"] = info&types.IsInteger != 0 && info&types.IsUnsigned == 0
 		d["isint"] = info&types.IsInteger != 0
@@ -148,6 +151,15 @@ func tid(t types.Type) string {
 func fnPkgPath(fn *ssa.Function) string {
 	if fn.Pkg != nil {
 		return fn.Pkg.Pkg.Path()
+	}
+	if fn.Synthetic != "" && fn.Signature.Recv() != nil {
+		t := fn.Signature.Recv().Type()
+		if p, ok := t.(*types.Pointer); ok {
+			t = p.Elem()
+		}
+		if n, ok := t.(*types.Named); ok && n.Obj().Pkg() != nil {
+			return n.Obj().Pkg().Path()
+		}
 	}
 	if o := fn.Origin(); o != nil && o != fn {
 		return fnPkgPath(o)
